@@ -50,22 +50,15 @@ pub fn run_with_vm_and_opt(
 
         // modules loaded by earlier inputs of this session stay loaded: importing one again binds
         // its exports but does not run its top level a second time
-        let memo: HashMap<String, ModuleInfo> = vm
+        let mut memo: HashMap<String, ModuleInfo> = vm
             .take_repl_session()
             .and_then(|state| state.downcast::<HashMap<String, ModuleInfo>>().ok())
             .map(|memo| *memo)
             .unwrap_or_default();
-        let imports =
-            match load_modules_with_memo(&stmts, &repl_path, src.clone(), vm, memo.clone()) {
-                Ok((imports, loader)) => {
-                    vm.set_repl_session(Box::new(loader.loaded_modules));
-                    imports
-                }
-                Err(err) => {
-                    vm.set_repl_session(Box::new(memo));
-                    return Err(err);
-                }
-            };
+        let loaded = load_modules_with_memo(&stmts, &repl_path, src.clone(), vm, &mut memo);
+        // whether loading succeeded or failed, the session keeps every module that is initialised
+        vm.set_repl_session(Box::new(memo));
+        let imports = loaded?;
 
         // the imported names are used to compile this input; they are recorded in the VM for
         // later inputs only once this input has been accepted (see below): an input that is
